@@ -264,6 +264,33 @@ Fixpoint wait (ncb : nat) (now dl : Z) (arr : list (Z * bytes)) : loopres :=
       end
   end.
 
+(* ---- the same loop WITHOUT the tie rule, and with callbacks that take time: the set of results
+   the code may produce when select's choice is not determined.  [W] = how close (ns) the timer and
+   a message have to become ready for either to be chosen; [cbd] = how long each extension callback
+   blocks (the timer is re-armed BEFORE the callbacks run, so a deadline can expire, and further
+   messages queue up, while they run).  Whichever side is chosen is handled as what it is: the
+   timer gives the timeout error, a message goes through the same classification as in [wait]. ---- *)
+Definition wrap_taken (cbs : list (nat * Z)) (r : loopres) : loopres :=
+  LR (l_out r) (cbs ++ l_cbs r) (l_time r) (l_deadline r) (S (l_taken r)).
+
+Fixpoint wait_nd (W cbd : Z) (ncb : nat) (now dl : Z) (arr : list (Z * bytes)) : list loopres :=
+  match arr with
+  | [] => [LR OTimeout [] (Z.max now dl) dl 0]
+  | (t0, p) :: rest =>
+    let tm := Z.max now t0 in      (* the message is ready *)
+    let tt := Z.max now dl in      (* the timer is ready *)
+    (if (tt <=? tm + W)%Z then [LR OTimeout [] tt dl 0] else []) ++
+    (if (tm <=? tt + W)%Z then
+       if negb (is_pre p) then [LR (OResponse p) [] tm dl 1]
+       else
+         match pre_timeout p with
+         | Some d => map (wrap_taken (notify ncb d))
+                         (wait_nd W cbd ncb (tm + Z.of_nat ncb * cbd)%Z (tm + d)%Z rest)
+         | None => map (wrap_taken []) (wait_nd W cbd ncb tm dl rest)
+         end
+     else [])
+  end.
+
 Record result := R {
   r_out : outcome;
   r_cbs : list (nat * Z);
